@@ -234,10 +234,12 @@ def hint_builder(ctx):
     facts = ctx.facts
     c = []
     for k, b in facts.bodies.items():
-        if b["glue"] or b["kind"] == "Closure" or b.get("impl_self") != AXE:
+        if b["glue"] or b["kind"] == "Closure":
             continue
         s = [b["locals"][i] for i in range(b["argc"] + 1)]
-        if len(s) == 5 and s[0] == ["adt", "helpers::errors::AxError", []] and s[2] == ["u", 64] and s[3] == ["u", 64]:
+        # on the machine or on its state: (&X, u64, u64, String) -> AxError
+        if len(s) == 5 and s[0] == ["adt", "helpers::errors::AxError", []] and s[2] == ["u", 64] and s[3] == ["u", 64] \
+                and isinstance(s[1], list) and s[1][0] == "ref":
             c.append(k)
     return c
 
